@@ -91,7 +91,13 @@ GHOST_MAGIC = b"Gh0st"
 
 def ghost_frame(rng, n=None):
     """A well-formed Gh0st packet: magic, total size, uncompressed size (little endian), zlib stream."""
-    raw = bytes(rng.getrandbits(8) for _ in range(rng.choice([0, 1, 16, 200]) if n is None else n))
+    n = rng.choice([0, 1, 16, 200, 168, 169, 170, 180, 217, 218, 224, 260]) if n is None else n
+    if rng.random() < 0.5:
+        # shaped like the implant's own messages: a command token, then a structure without NUL bytes (login info with an
+        # unterminated host name, heartbeats ...)
+        raw = (bytes([rng.choice([0x66, 0x66, 0x00, 0x01, 0x67, 0xFF])]) + bytes(rng.choice(b"ABCDEFGHabcdefgh0123456789") for _ in range(n)))[:n]
+    else:
+        raw = bytes(rng.getrandbits(8) for _ in range(n))
     body = zlib.compress(raw)
     return GHOST_MAGIC + struct.pack("<II", 13 + len(body), len(raw)) + body
 
